@@ -9,6 +9,7 @@ import (
 	"sort"
 	"strings"
 	"testing"
+	"time"
 
 	"github.com/google/mtail/internal/exporter"
 	"github.com/google/mtail/internal/metrics"
@@ -118,7 +119,7 @@ func c13Expected(c *storeCase) (map[string]*c13Sample, int) {
 }
 
 func runC13(c storeCase) *vstat.Failure {
-	return vstat.Catch(func() *vstat.Failure { return runC13x(c) })
+	return vstat.CatchBounded(60*time.Second, func() *vstat.Failure { return runC13x(c) })
 }
 
 func runC13x(c storeCase) *vstat.Failure {
